@@ -7,6 +7,7 @@ import Model.C06.Base58
 import Model.C06.Address
 import Model.C06.KeyText
 import Model.C06.Slip132
+import Model.C06.Bip21
 import Generated.Bech32
 import Generated.Base58
 import Generated.Segwit
@@ -196,6 +197,19 @@ def handle : List String → String
       match KeyText.xkeyDecode hash256 t with
       | .ok k => s!"ok {toHex k.version} {k.depth} {toHex k.parentFp} {k.index} {toHex k.chainCode} {toHex k.key}"
       | .error _ => "err value"
+    | none => "bad-op"
+  | ["bip21.query", txt] =>
+    match text? txt with
+    | some q =>
+      match Bip21.parseQuery q with
+      | .ok ps =>
+        let items := (ps.map fun (k, v) => s!"{textHex k}={textHex v}").toArray.qsort (· < ·)
+        "ok " ++ (if items.isEmpty then "_" else ";".intercalate items.toList)
+      | .error _ => "err value"
+    | none => "bad-op"
+  | ["bip21.quote", txt] =>
+    match text? txt with
+    | some t => "ok " ++ textHex (Bip21.pctEncode t)
     | none => "bad-op"
   | ["xkey.decv", txt] =>
     match text? txt with
